@@ -868,3 +868,4 @@ unit(id="variable.eq", src="src/variable.rs", path=[("impl", "PartialEq for Vari
 import vunits_c13  # noqa: E402,F401  (C13 units; registers itself through unit())
 import vunits_more  # noqa: E402,F401  (Slicing::exec, ...)
 import vunits_fn  # noqa: E402,F401  (function creation: closures are re-folded when created)
+import vunits_env  # noqa: E402,F401  (the environment data structures themselves: Interpreter, LocalVariables)
